@@ -25,7 +25,7 @@ Functions for manipulating edges in the CFG.
 """
 
 import uuid
-from typing import Container, Optional, overload
+from typing import Container, Iterable, List, Optional, overload
 
 import gtirb
 from typing_extensions import NotRequired, TypedDict, Unpack
@@ -146,21 +146,37 @@ def update_fallthrough_target(
     )
 
 
+def returning_blocks(
+    cache: ModifyCache, module: gtirb.Module, func_uuid: uuid.UUID
+) -> List[gtirb.CodeBlock]:
+    """
+    Gets the blocks in a function that have return edges.
+    """
+    return [
+        block
+        for block in _get_function_blocks(module, func_uuid)
+        if cache.return_cache.any_return_edges(block)
+    ]
+
+
 def add_return_edges_to_callee(
     cache: ModifyCache,
     module: gtirb.Module,
     func_uuid: uuid.UUID,
     return_target: gtirb.CfgNode,
     cfg: gtirb.CFG,
+    blocks: Optional[Iterable[gtirb.CodeBlock]] = None,
 ) -> None:
     """
     Adds a new return edge to all returns in the function.
+    :param blocks: The returning blocks of the function, if the caller has
+           already determined them (see returning_blocks).
     """
-    for block in _get_function_blocks(module, func_uuid):
-        assert block.ir
+    if blocks is None:
+        blocks = returning_blocks(cache, module, func_uuid)
 
-        if not cache.return_cache.any_return_edges(block):
-            continue
+    for block in blocks:
+        assert block.ir
 
         for return_edge in cache.return_cache.block_proxy_return_edges(block):
             # We are intentionally leaving the proxy block in the module's
